@@ -6,7 +6,7 @@ from hypothesis import strategies as st
 from vlib import bf3model as M
 from vlib import strategies as S
 from vlib import sut
-from vlib.core import Part, Violation
+from vlib.core import Part, Violation, case_hash
 
 PROPERTY = "C07"
 LEVEL = "exploration"
@@ -33,18 +33,9 @@ class Recording:
 
     def __init__(self, seed=b"c07"):
         self.rng = sut.DetRandom(seed)
-        self.scalars = []
-        base = sut._REG0["__PrivateEccKey"]
-        outer = self
-
-        class Rec(base):
-            @classmethod
-            def generate(cls):
-                k = base.generate()
-                outer.scalars.append(k.private_key.privkey.secret_multiplier)
-                return k
-
-        self.cls = Rec
+        self._dk = sut.DetKeys(seed)
+        self.scalars = self._dk.scalars
+        self.cls = self._dk.cls
 
     def __enter__(self):
         sut.bec2format.register_random_bytes(self.rng)
@@ -87,7 +78,7 @@ def check_agree(case, rec):
         rec.cls("agree.keyless")
     if any(b["kind"] == "ecc" for b in blocks):
         rec.cls("agree.ecc")
-    with Recording() as r:
+    with Recording(case_hash(case)) as r:
         bec = sut.mk_bec2(case)
         if case["key"] is None:
             if len(r.rng.draws) != 1 or len(r.rng.draws[0]) != 16 or bytes(bec.session_key) != r.rng.draws[0]:
@@ -164,7 +155,7 @@ def check_passthrough(case, rec):
         g = sut.Bec2File.read_file(io.StringIO(M.text([], b1)), decs)
     except Exception as e:
         raise Violation("read with decryptor subset %r raised %s: %s" % (opened, type(e).__name__, e))
-    with Recording() as r:
+    with Recording(case_hash(case)) as r:
         try:
             b2 = g.to_binary(decs)
         except Exception as e:
